@@ -467,8 +467,19 @@ def run_expand(chk, c2m, model_fn, d, quick, model=None):
         else:
             base, fs, src = rng.choice(corpus_texts), [], 'corpus'
         text, dfs = D.decorate(rng, base, names)
-        if not D.well_formed(text):
-            raise vlib.BuildError('gen_c09_deco produced an ill-formed text: %r' % text[:300])
+        for _retry in range(8):
+            if D.well_formed(text):
+                break
+            # the decoration layer's own filter rejects its output (e.g. a comment opener formed by a decoration
+            # next to a '/' of the base text): draw another decoration; this concerns the generator only
+            chk.dist('decorations', 'redrawn', 1)
+            text, dfs = D.decorate(rng, base, names)
+        else:
+            if not D.well_formed(base):
+                chk.dist('decorations', 'dropped', 1)
+                continue
+            chk.dist('decorations', 'dropped', 1)
+            text, dfs = base, ['undecorated']
         cases.append((idx, text))
         if src == 'macro':
             q = M.model_query(base)
